@@ -20,6 +20,7 @@ import DsdVerif.DriverSingleton
 import DsdVerif.DriverUnits
 import DsdVerif.DriverSetObjects
 import DsdVerif.DriverComplexS2
+import DsdVerif.DriverReaderFns
 import DsdVerif.DriverDomain
 import DsdVerif.DriverLegacyReg
 import DsdVerif.Model.Dlc
@@ -643,7 +644,7 @@ def stepD (d : DState) (line : String) : DState × String :=
       | none => (d, "bad-op")
     else
     match (((DriverKernel.stepKernel line).orElse (fun _ => DriverIdent.stepIdent line)).orElse (fun _ => DriverIdent2.stepIdent2 line)).orElse
-        (fun _ => ((DriverSingleton.stepSingleton line).orElse (fun _ => DriverUnits.stepUnits line)).orElse (fun _ => (DriverSetObjects.stepSetObjects line).orElse (fun _ => DriverComplexS2.stepComplexS2 line))) with
+        (fun _ => ((DriverSingleton.stepSingleton line).orElse (fun _ => DriverUnits.stepUnits line)).orElse (fun _ => ((DriverSetObjects.stepSetObjects line).orElse (fun _ => DriverComplexS2.stepComplexS2 line)).orElse (fun _ => DriverReaderFns.stepReaderFns line))) with
     | some out => (d, out)
     | none =>
       match DriverLegacyReg.stepLegacyReg d.lr line with
